@@ -189,6 +189,47 @@ func LoopSite(stack []byte) string {
 	return PanicSite(stack)
 }
 
+// handlerFrames lists the functions of the code under test on the stack of the goroutine that runs the handler,
+// innermost first.
+func handlerFrames(dump []byte) []string {
+	for _, g := range strings.Split(string(dump), "\n\n") {
+		if !strings.Contains(g, "internal/drv.Guard") {
+			continue
+		}
+		var out []string
+		for _, l := range strings.Split(g, "\n") {
+			if strings.HasPrefix(l, "\t") {
+				continue
+			}
+			if i := strings.Index(l, "github.com/benoitkugler/webrender/"); i >= 0 {
+				s := l[i+len("github.com/benoitkugler/webrender/"):]
+				if j := strings.LastIndex(s, "("); j > 0 {
+					s = s[:j]
+				}
+				if !strings.Contains(s, "verif") {
+					out = append(out, s)
+				}
+			}
+		}
+		return out
+	}
+	return nil
+}
+
+// StuckSite returns the innermost function that is on the handler's stack in both dumps at the same depth from the
+// bottom (the function whose loop does not return), or "".
+func StuckSite(a, b []byte) string {
+	x, y := handlerFrames(a), handlerFrames(b)
+	site := ""
+	for i := 1; i <= len(x) && i <= len(y); i++ {
+		if x[len(x)-i] != y[len(y)-i] {
+			break
+		}
+		site = x[len(x)-i]
+	}
+	return site
+}
+
 var numRe = regexp.MustCompile(`[0-9]+`)
 
 // MsgClass normalises a panic message (numbers removed, truncated).
@@ -276,10 +317,19 @@ func child(in, outp, shard string, from int, prog string, tmo time.Duration, lim
 			c, st, ln := cur, curStart, curLine
 			mu.Unlock()
 			if c >= 0 && time.Since(st) > tmo {
-				// name the hang by the innermost function of the code under test that is running
+				// name the hang: the recursing function, or the innermost function of the code under test that stays on the
+				// stack between two dumps taken half a second apart (the loop that does not return)
 				buf := make([]byte, 4<<20)
 				buf = buf[:runtime.Stack(buf, true)]
 				site := LoopSite(buf)
+				if !strings.HasPrefix(site, "recursion:") {
+					time.Sleep(500 * time.Millisecond)
+					buf2 := make([]byte, 4<<20)
+					buf2 = buf2[:runtime.Stack(buf2, true)]
+					if st := StuckSite(buf, buf2); st != "" {
+						site = st
+					}
+				}
 				out.Disagree("timeout:"+site, fmt.Sprintf("scenario %d did not return within %s (running: %s)", c, tmo, site), json.RawMessage(ln))
 				out.Count("timeouts")
 				out.summary()
